@@ -254,4 +254,449 @@ theorem addSubapp_good_partial (f fuel : Nat) (t t' s : Table) (pfx q : Str) (h 
         injection he with he; subst he
         exact register_good f t _ h ⟨hq, hs s' hp⟩
 
+
+/-! ## path-normalising redirects stay on the site -/
+
+theorem dropWhile_slash_head (t : Str) : ∀ u, t.dropWhile (· = SL) ≠ SL :: u := by
+  induction t with
+  | nil => simp
+  | cons c t ih =>
+    intro u
+    by_cases hc : c = SL
+    · simp only [List.dropWhile_cons, hc, decide_true, if_true]; exact ih u
+    · simp only [List.dropWhile_cons, hc, decide_false]
+      intro e; injection e with e _; exact hc e
+
+theorem stripLead_no_double (s : Str) : ∀ t, stripLeadSlashes s ≠ SL :: SL :: t := by
+  intro t
+  unfold stripLeadSlashes
+  split
+  · next a b u =>
+    split
+    · intro e; injection e with _ e; exact dropWhile_slash_head u t e
+    · next hn => intro e; injection e with e1 e2; injection e2 with e2 _; exact hn ⟨e1, e2⟩
+  · next hn => intro e; exact hn SL SL t e
+
+theorem stripLead_startsSL (s : Str) (h : s = [] ∨ StartsSL s) :
+    stripLeadSlashes s = [] ∨ StartsSL (stripLeadSlashes s) := by
+  unfold stripLeadSlashes
+  split
+  · split
+    · right; simp [StartsSL]
+    · exact h
+  · exact h
+
+/-- **redirect_same_site.** Whatever the request path and the middleware flags, no path that
+`normalize_path_middleware` tries (and therefore no redirect target it can produce, before
+yarl's re-quoting) starts with `//`: it can never be read as a network-path reference to
+another host. -/
+theorem redirect_same_site (fl : MwFlags) (path : Str) (ends : Bool) (c : Str)
+    (hc : c ∈ mwCandidates fl path ends) : ∀ t, c ≠ SL :: SL :: t := by
+  unfold mwCandidates at hc
+  simp only [List.mem_map] at hc
+  obtain ⟨s, _, rfl⟩ := hc
+  exact stripLead_no_double s
+
+theorem mergeSlashes_startsSL (s : Str) (h : StartsSL s) : StartsSL (mergeSlashes s) := by
+  induction s with
+  | nil => simp [StartsSL] at h
+  | cons a rest ih =>
+    simp only [StartsSL, List.head?_cons, Option.some.injEq] at h
+    subst h
+    cases rest with
+    | nil => simp [mergeSlashes, StartsSL]
+    | cons b u =>
+      simp only [mergeSlashes]
+      split
+      · next hb => exact ih (by simp [StartsSL, hb.2])
+      · simp [StartsSL]
+
+theorem dropLast_startsSL (s : Str) (h : StartsSL s) : s.dropLast = [] ∨ StartsSL s.dropLast := by
+  cases s with
+  | nil => left; rfl
+  | cons a t =>
+    cases t with
+    | nil => left; rfl
+    | cons b u => right; simpa [StartsSL, List.dropLast] using h
+
+/-- for an origin-form request path every candidate is empty or starts with exactly one `/` -/
+theorem redirect_candidates_rooted (fl : MwFlags) (path : Str) (ends : Bool) (hp : StartsSL path)
+    (c : Str) (hc : c ∈ mwCandidates fl path ends) :
+    c = [] ∨ (StartsSL c ∧ ∀ t, c ≠ SL :: SL :: t) := by
+  have h2 := redirect_same_site fl path ends c hc
+  unfold mwCandidates at hc
+  simp only [List.mem_map] at hc
+  obtain ⟨s, hs, rfl⟩ := hc
+  have hpa : StartsSL (path ++ [SL]) := by
+    cases path with
+    | nil => simp [StartsSL] at hp
+    | cons a t => simpa [StartsSL] using hp
+  have hs' : s = [] ∨ StartsSL s := by
+    simp only [List.mem_append] at hs
+    rcases hs with (((hs | hs) | hs) | hs) | hs
+    · split at hs
+      · simp only [List.mem_singleton] at hs; subst hs; exact Or.inr (mergeSlashes_startsSL _ hp)
+      · simp at hs
+    · split at hs
+      · simp only [List.mem_singleton] at hs; subst hs; exact Or.inr hpa
+      · simp at hs
+    · split at hs
+      · simp only [List.mem_singleton] at hs; subst hs; exact dropLast_startsSL _ hp
+      · simp at hs
+    · split at hs
+      · simp only [List.mem_singleton] at hs; subst hs; exact Or.inr (mergeSlashes_startsSL _ hpa)
+      · simp at hs
+    · split at hs
+      · simp only [List.mem_singleton] at hs; subst hs
+        exact dropLast_startsSL _ (mergeSlashes_startsSL _ hp)
+      · simp at hs
+  rcases stripLead_startsSL s hs' with h | h
+  · exact Or.inl h
+  · exact Or.inr ⟨h, h2⟩
+
+
+/-! ## 404 / 405 (tables of plain, dynamic and static resources) -/
+
+def isLeaf : Res → Bool
+  | .plain _ _ | .dyn _ _ _ | .static _ _ => true
+  | _ => false
+
+/-- the resource matches the request *path* (documented notion) -/
+def pathMatch (r : Res) (q : Req) : Bool :=
+  match r with
+  | .plain p _ => p == q.path
+  | .dyn _ ps _ => (dynMatch ps q.path).isSome
+  | .static pfx _ => underPrefix pfx q.path && underPrefix pfx q.norm
+  | _ => false
+
+/-- the resource has a route for the method (`*` counts for plain / dynamic resources) -/
+def methodMatch (r : Res) (m : Str) : Bool :=
+  match r with
+  | .static _ rts => (rts.find? (fun x => x.1 == m)).isSome
+  | r => (r.routes.lookup m).isSome
+
+def passList : Ans → List Str
+  | .pass al => al
+  | .final _ => []
+
+/-- answers of leaf resources: "not me" or a found handler -/
+def LeafAns (a : Ans) : Prop := (∃ al, a = .pass al) ∨ ∃ h d, a = .final (.found h d)
+
+theorem leaf_answer (rec : Table → Req → Result) (r : Res) (q : Req) (hl : isLeaf r = true) :
+    (pathMatch r q = false → ansSpecWith rec r q = .pass []) ∧
+    (pathMatch r q = true → methodMatch r q.method = false →
+      ansSpecWith rec r q = .pass r.routes.allowed) ∧
+    (pathMatch r q = true → methodMatch r q.method = true →
+      ∃ h d, ansSpecWith rec r q = .final (.found h d)) := by
+  cases r with
+  | plain p rts =>
+    simp only [pathMatch, methodMatch, ansSpecWith, ansLeaf, Res.routes]
+    cases hp : (p == q.path) <;> simp [ansRoutes]
+    cases hm : rts.lookup q.method <;> simp
+  | dyn o ps rts =>
+    simp only [pathMatch, methodMatch, ansSpecWith, ansLeaf, Res.routes]
+    cases hp : dynMatch ps q.path <;> simp [ansRoutes]
+    cases hm : rts.lookup q.method <;> simp
+  | static pfx rts =>
+    simp only [pathMatch, methodMatch, ansSpecWith, ansLeaf, Res.routes]
+    cases hp : underPrefix pfx q.path <;> cases hn : underPrefix pfx q.norm <;>
+      cases hm : rts.find? (fun x => x.1 == q.method) <;> simp [hm]
+  | sub pfx t => simp [isLeaf] at hl
+  | dom rule t => simp [isLeaf] at hl
+
+theorem leaf_answer_leafAns (rec : Table → Req → Result) (r : Res) (q : Req) (hl : isLeaf r = true) :
+    LeafAns (ansSpecWith rec r q) := by
+  have ⟨h1, h2, h3⟩ := leaf_answer rec r q hl
+  cases hp : pathMatch r q with
+  | false => exact Or.inl ⟨_, h1 hp⟩
+  | true =>
+    cases hm : methodMatch r q.method with
+    | false => exact Or.inl ⟨_, h2 hp hm⟩
+    | true => exact Or.inr (h3 hp hm)
+
+theorem combine_404 (l : List Ans) (acc : List Str) (hl : ∀ a ∈ l, LeafAns a)
+    (h : combine l acc = .e404) : acc = [] ∧ ∀ a ∈ l, a = .pass [] := by
+  induction l generalizing acc with
+  | nil =>
+    simp only [combine] at h
+    split at h
+    · next he => exact ⟨by simpa using he, by simp⟩
+    · cases h
+  | cons a l ih =>
+    rcases hl a (List.mem_cons_self ..) with ⟨al, rfl⟩ | ⟨hh, d, rfl⟩
+    · simp only [combine] at h
+      have ⟨h1, h2⟩ := ih _ (fun x hx => hl x (List.mem_cons_of_mem _ hx)) h
+      have ha : acc = [] ∧ al = [] := by simpa using h1
+      refine ⟨ha.1, ?_⟩
+      intro x hx
+      rcases List.mem_cons.mp hx with rfl | hx
+      · rw [ha.2]
+      · exact h2 x hx
+    · simp [combine] at h
+
+theorem combine_all_pass (l : List Ans) (acc : List Str) (hl : ∀ a ∈ l, ∃ al, a = .pass al) :
+    combine l acc =
+      if (acc ++ l.flatMap passList).isEmpty then .e404 else .e405 (acc ++ l.flatMap passList) := by
+  induction l generalizing acc with
+  | nil => simp [combine]
+  | cons a l ih =>
+    obtain ⟨al, rfl⟩ := hl a (List.mem_cons_self ..)
+    simp only [combine, List.flatMap_cons, passList]
+    rw [ih _ (fun x hx => hl x (List.mem_cons_of_mem _ hx))]
+    simp [List.append_assoc]
+
+theorem combine_405 (l : List Ans) (acc A : List Str) (hl : ∀ a ∈ l, LeafAns a)
+    (h : combine l acc = .e405 A) : (∀ a ∈ l, ∃ al, a = .pass al) ∧ A = acc ++ l.flatMap passList := by
+  induction l generalizing acc with
+  | nil =>
+    simp only [combine] at h
+    split at h
+    · cases h
+    · injection h with h; simp [h]
+  | cons a l ih =>
+    rcases hl a (List.mem_cons_self ..) with ⟨al, rfl⟩ | ⟨hh, d, rfl⟩
+    · simp only [combine] at h
+      have ⟨h1, h2⟩ := ih _ (fun x hx => hl x (List.mem_cons_of_mem _ hx)) h
+      refine ⟨?_, by simp [h2, passList, List.append_assoc]⟩
+      intro x hx
+      rcases List.mem_cons.mp hx with rfl | hx
+      · exact ⟨al, rfl⟩
+      · exact h1 x hx
+    · simp [combine] at h
+
+theorem mem_descFrom (n m : Nat) : m ∈ descFrom n ↔ m < n := by
+  induction n with
+  | zero => simp [descFrom]
+  | succ n ih => simp only [descFrom, List.mem_cons, ih]; omega
+
+/-- a table of leaf resources only -/
+def Flat (t : Table) : Prop := ∀ r ∈ t.rs, isLeaf r = true
+
+theorem leaf_not_dom (r : Res) (h : isLeaf r = true) : isDom r = false := by
+  cases r <;> simp_all [isLeaf, isDom]
+
+/-- the answers the linear rule scans, for a flat table: exactly the answers of the resources
+whose key is not longer than the path -/
+theorem linear_flat (f : Nat) (t : Table) (q : Req) (hf : Flat t) :
+    ∃ l, linear (f + 1) t q = combine l [] ∧
+      (∀ a, a ∈ l ↔ ∃ r ∈ t.rs, (keyOf r).length ≤ q.path.length ∧ a = ansSpecWith (linear f) r q) := by
+  refine ⟨(descRange q.path.length).flatMap (fun n =>
+      (t.rs.filter (fun r => !isDom r && (keyOf r).length == n)).map
+        (fun r => ansSpecWith (linear f) r q)), ?_, ?_⟩
+  · simp only [linear]
+    have : t.rs.filter isDom = [] := by
+      apply List.filter_eq_nil_iff.mpr
+      intro r hr; simp [leaf_not_dom r (hf r hr)]
+    rw [this]; rfl
+  · intro a
+    simp only [List.mem_flatMap, List.mem_map, List.mem_filter, descRange, mem_descFrom,
+      Bool.and_eq_true, Bool.not_eq_true', beq_iff_eq]
+    constructor
+    · rintro ⟨n, hn, r, ⟨hr, _, hk⟩, rfl⟩
+      exact ⟨r, hr, by omega, rfl⟩
+    · rintro ⟨r, hr, hk, rfl⟩
+      exact ⟨_, by omega, r, ⟨hr, leaf_not_dom r (hf r hr), rfl⟩, rfl⟩
+
+/-- every resource of a flat table is either scanned or inert -/
+theorem flat_all (f : Nat) (t : Table) (q : Req) (hp : StartsSL q.path) (hf : Flat t) (r : Res)
+    (hr : r ∈ t.rs) : (keyOf r).length ≤ q.path.length ∨ ansSpecWith (linear f) r q = .pass [] := by
+  by_cases h : ansSpecWith (linear f) r q = .pass []
+  · exact Or.inr h
+  · left
+    exact walk_length_le hp (index_complete _ r q hp (leaf_not_dom r (hf r hr)) h)
+
+/-- **status_404_iff.** For a table of plain / dynamic / static resources that all have at
+least one route: 404 is the answer exactly when no resource matches the path. -/
+theorem status_404_iff (f : Nat) (t : Table) (q : Req) (hp : StartsSL q.path) (hf : Flat t)
+    (hne : ∀ r ∈ t.rs, r.routes ≠ []) :
+    linear (f + 1) t q = .e404 ↔ ∀ r ∈ t.rs, pathMatch r q = false := by
+  obtain ⟨l, hl, hmem⟩ := linear_flat f t q hf
+  have hleaf : ∀ a ∈ l, LeafAns a := by
+    intro a ha
+    obtain ⟨r, hr, _, rfl⟩ := (hmem a).mp ha
+    exact leaf_answer_leafAns _ r q (hf r hr)
+  have hinert : ∀ r ∈ t.rs, (ansSpecWith (linear f) r q = .pass [] ↔ pathMatch r q = false) := by
+    intro r hr
+    have ⟨h1, h2, h3⟩ := leaf_answer (linear f) r q (hf r hr)
+    constructor
+    · intro h
+      cases hpm : pathMatch r q with
+      | false => rfl
+      | true =>
+        cases hm : methodMatch r q.method with
+        | false =>
+          rw [h2 hpm hm] at h
+          injection h with h
+          have := hne r hr
+          simp [Routes.allowed] at h
+          exact absurd h this
+        | true =>
+          obtain ⟨hh, d, e⟩ := h3 hpm hm
+          rw [e] at h; cases h
+    · exact h1
+  rw [hl]
+  constructor
+  · intro h r hr
+    have ⟨_, hall⟩ := combine_404 l [] hleaf h
+    rcases flat_all f t q hp hf r hr with hk | hi
+    · exact (hinert r hr).mp (hall _ ((hmem _).mpr ⟨r, hr, hk, rfl⟩))
+    · exact (hinert r hr).mp hi
+  · intro h
+    have hall : ∀ a ∈ l, ∃ al, a = Ans.pass al := by
+      intro a ha
+      obtain ⟨r, hr, _, rfl⟩ := (hmem a).mp ha
+      exact ⟨[], (hinert r hr).mpr (h r hr)⟩
+    rw [combine_all_pass l [] hall]
+    have : l.flatMap passList = [] := by
+      apply List.flatMap_eq_nil_iff.mpr
+      intro a ha
+      obtain ⟨r, hr, _, rfl⟩ := (hmem a).mp ha
+      rw [(hinert r hr).mpr (h r hr)]; rfl
+    simp [this]
+
+
+theorem inert_iff_not_pathMatch (rec : Table → Req → Result) (r : Res) (q : Req)
+    (hl : isLeaf r = true) (hne : r.routes ≠ []) :
+    ansSpecWith rec r q = .pass [] ↔ pathMatch r q = false := by
+  have ⟨h1, h2, h3⟩ := leaf_answer rec r q hl
+  constructor
+  · intro h
+    cases hpm : pathMatch r q with
+    | false => rfl
+    | true =>
+      cases hm : methodMatch r q.method with
+      | false =>
+        rw [h2 hpm hm] at h
+        injection h with h
+        simp [Routes.allowed] at h
+        exact absurd h hne
+      | true =>
+        obtain ⟨hh, d, e⟩ := h3 hpm hm
+        rw [e] at h; cases h
+  · exact h1
+
+/-- **allowed_complete.** When a flat table answers 405, the allowed methods are exactly the
+methods of all resources that match the path — none missing, none extra. -/
+theorem allowed_complete (f : Nat) (t : Table) (q : Req) (A : List Str) (hp : StartsSL q.path)
+    (hf : Flat t) (hne : ∀ r ∈ t.rs, r.routes ≠ []) (h : linear (f + 1) t q = .e405 A) :
+    ∀ m, m ∈ A ↔ ∃ r ∈ t.rs, pathMatch r q = true ∧ m ∈ r.routes.allowed := by
+  obtain ⟨l, hl, hmem⟩ := linear_flat f t q hf
+  have hleaf : ∀ a ∈ l, LeafAns a := by
+    intro a ha
+    obtain ⟨r, hr, _, rfl⟩ := (hmem a).mp ha
+    exact leaf_answer_leafAns _ r q (hf r hr)
+  rw [hl] at h
+  obtain ⟨hpass, hA⟩ := combine_405 l [] A hleaf h
+  intro m
+  rw [hA]
+  simp only [List.nil_append, List.mem_flatMap]
+  constructor
+  · rintro ⟨a, ha, hm⟩
+    obtain ⟨r, hr, _, rfl⟩ := (hmem a).mp ha
+    have ⟨h1, h2, h3⟩ := leaf_answer (linear f) r q (hf r hr)
+    refine ⟨r, hr, ?_⟩
+    cases hpm : pathMatch r q with
+    | false => rw [h1 hpm] at hm; simp [passList] at hm
+    | true =>
+      cases hmm : methodMatch r q.method with
+      | false => rw [h2 hpm hmm] at hm; exact ⟨rfl, hm⟩
+      | true =>
+        obtain ⟨hh, d, e⟩ := h3 hpm hmm
+        obtain ⟨al, e'⟩ := hpass _ ha
+        rw [e] at e'; cases e'
+  · rintro ⟨r, hr, hpm, hm⟩
+    have ⟨h1, h2, h3⟩ := leaf_answer (linear f) r q (hf r hr)
+    have hni : ansSpecWith (linear f) r q ≠ .pass [] := by
+      intro e
+      have := (inert_iff_not_pathMatch (linear f) r q (hf r hr) (hne r hr)).mp e
+      rw [hpm] at this; cases this
+    have hk : (keyOf r).length ≤ q.path.length := by
+      rcases flat_all f t q hp hf r hr with hk | hi
+      · exact hk
+      · exact absurd hi hni
+    have ha : ansSpecWith (linear f) r q ∈ l := (hmem _).mpr ⟨r, hr, hk, rfl⟩
+    refine ⟨_, ha, ?_⟩
+    cases hmm : methodMatch r q.method with
+    | false => rw [h2 hpm hmm]; exact hm
+    | true =>
+      obtain ⟨hh, d, e⟩ := h3 hpm hmm
+      obtain ⟨al, e'⟩ := hpass _ ha
+      rw [e] at e'; cases e'
+
+/-- **status_405_iff.** A flat table answers 405 exactly when some resource matches the path
+and none of the path-matching resources has a route for the method. -/
+theorem status_405_iff (f : Nat) (t : Table) (q : Req) (hp : StartsSL q.path) (hf : Flat t)
+    (hne : ∀ r ∈ t.rs, r.routes ≠ []) :
+    (∃ A, linear (f + 1) t q = .e405 A) ↔
+      (∃ r ∈ t.rs, pathMatch r q = true) ∧
+      ∀ r ∈ t.rs, pathMatch r q = true → methodMatch r q.method = false := by
+  obtain ⟨l, hl, hmem⟩ := linear_flat f t q hf
+  have hleaf : ∀ a ∈ l, LeafAns a := by
+    intro a ha
+    obtain ⟨r, hr, _, rfl⟩ := (hmem a).mp ha
+    exact leaf_answer_leafAns _ r q (hf r hr)
+  have hscan : ∀ r ∈ t.rs, pathMatch r q = true → ansSpecWith (linear f) r q ∈ l := by
+    intro r hr hpm
+    have hni : ansSpecWith (linear f) r q ≠ .pass [] := by
+      intro e
+      have := (inert_iff_not_pathMatch (linear f) r q (hf r hr) (hne r hr)).mp e
+      rw [hpm] at this; cases this
+    rcases flat_all f t q hp hf r hr with hk | hi
+    · exact (hmem _).mpr ⟨r, hr, hk, rfl⟩
+    · exact absurd hi hni
+  constructor
+  · rintro ⟨A, h⟩
+    rw [hl] at h
+    obtain ⟨hpass, hA⟩ := combine_405 l [] A hleaf h
+    constructor
+    · -- A is non-empty, so some scanned resource contributes a method
+      have hne' : l.flatMap passList ≠ [] := by
+        intro e
+        rw [combine_all_pass l [] hpass] at h
+        simp [e] at h
+      obtain ⟨a, ha, hna⟩ : ∃ a ∈ l, passList a ≠ [] := by
+        apply Classical.byContradiction
+        intro hcon
+        apply hne'
+        apply List.flatMap_eq_nil_iff.mpr
+        intro a ha
+        apply Classical.byContradiction
+        intro hna
+        exact hcon ⟨a, ha, hna⟩
+      obtain ⟨r, hr, _, rfl⟩ := (hmem a).mp ha
+      refine ⟨r, hr, ?_⟩
+      cases hpm : pathMatch r q with
+      | true => rfl
+      | false =>
+        have := (leaf_answer (linear f) r q (hf r hr)).1 hpm
+        rw [this] at hna; simp [passList] at hna
+    · intro r hr hpm
+      cases hmm : methodMatch r q.method with
+      | false => rfl
+      | true =>
+        obtain ⟨hh, d, e⟩ := (leaf_answer (linear f) r q (hf r hr)).2.2 hpm hmm
+        obtain ⟨al, e'⟩ := hpass _ (hscan r hr hpm)
+        rw [e] at e'; cases e'
+  · rintro ⟨⟨r0, hr0, hpm0⟩, hall⟩
+    have hpass : ∀ a ∈ l, ∃ al, a = Ans.pass al := by
+      intro a ha
+      obtain ⟨r, hr, _, rfl⟩ := (hmem a).mp ha
+      have ⟨h1, h2, _⟩ := leaf_answer (linear f) r q (hf r hr)
+      cases hpm : pathMatch r q with
+      | false => exact ⟨_, h1 hpm⟩
+      | true => exact ⟨_, h2 hpm (hall r hr hpm)⟩
+    rw [hl, combine_all_pass l [] hpass]
+    have hne' : (l.flatMap passList).isEmpty = false := by
+      have ha := hscan r0 hr0 hpm0
+      have e := (leaf_answer (linear f) r0 q (hf r0 hr0)).2.1 hpm0 (hall r0 hr0 hpm0)
+      cases hfl : l.flatMap passList with
+      | nil =>
+        have := List.flatMap_eq_nil_iff.mp hfl _ ha
+        rw [e] at this
+        simp [passList, Routes.allowed] at this
+        exact absurd this (hne r0 hr0)
+      | cons x xs => rfl
+    simp only [List.nil_append, hne']
+    exact ⟨_, rfl⟩
+
 end Aio.C14
